@@ -117,7 +117,7 @@ PROPS = {
     "C08": _t("Every retdiff leaf tagged NoChange (or not a Diff) must equal the previous return value's leaf, on every edit event of the histories; and every edit is re-run with the same key under every other honest tagging of its unchanged arguments (each non-empty subset tagged UnknownChange): same new trace and weight unless the spec's change analysis says that tagging reaches a switch index.", "§5 C08"),
     "C10": _t("project on traces of programs whose combinators implement it, for TLC-generated selections: value = sum of Exec's log-densities over selected addresses (static part), and project(S)+project(~S)=score.", "§5 C10"),
     "C11": _t("All core laws on vmap/repeat programs (in_axes variants, nested static, masked elements) including index edits; Exec defines vmap as n independent element executions under index i.", "§5 C11"),
-    "C12": _t("All core laws on scan and accumulate/reduce/iterate/iterate_final programs, specified directly by their documented loops in Exec, after generate/update/regenerate/index edits.", "§5 C12"),
+    "C12": _t("All core laws on scan and accumulate/reduce/iterate/iterate_final programs (scalar and vector-valued step outputs, zero-length scans and iterates), specified directly by their documented loops in Exec, after generate/update/regenerate/index edits; the value an edit returns to its caller equals the new trace's return value; role A on the operational Scan.edit_update rule (GFIOps), which also derives finding KF-C05-2 in the model.", "§5 C12"),
     "C13": _t("All core laws on switch / or_else / mix programs with in- and out-of-range indices, heterogeneous and shared branch addresses.", "§5 C13"),
     "C14": _t("All core laws on mask programs: flag transitions in updates, masked-off executions are empty with score 0 and an invalid return value.", "§5 C14"),
     "C15": _t("All core laws on dimap/map/contramap programs plus soundness of the return-value tag after argument changes.", "§5 C15"),
